@@ -444,6 +444,38 @@ def _notation_crosshair(case, tier, seed):
                              timeout_s=45 if tier == 'quick' else 150)
 
 
+def _first_touch_case(case, tier, seed):
+    """ground (concrete, fresh interpreters): the neutron record served does not depend on whether the first neutron lookup
+    of the process goes through an element, an isotope or an ion"""
+    import json
+    import periodictable as pt
+    res = dict(paths=1, claims=0, discharged=0, queries=0, distinct=0, violations=[], inconclusive=[], samples=[], solver_s=0.0, complete=True)
+    probes = ['pt.Cm[248]', 'pt.H[2]', 'pt.Ni[58]', 'pt.Fe.ion[2]', 'pt.Ni[58].ion[2]', 'pt.Gd[157]', 'pt.Fe']
+    fields = ('b_c', 'coherent', 'incoherent', 'total', 'absorption')
+
+    def rec(a):
+        n = a.neutron
+        return [getattr(n, f) for f in fields] + [bool(n.has_sld())]
+    want = {p: rec(eval(p)) for p in probes}
+    for first in probes[:6]:
+        code = ("import json, periodictable as pt\n"
+                "fields = %r\n"
+                "def rec(a):\n    n = a.neutron\n    return [getattr(n, f) for f in fields] + [bool(n.has_sld())]\n"
+                "first = rec(%s)\n"
+                "out = {p: rec(eval(p)) for p in %r}\nout['__first__'] = first\nprint(json.dumps(out))\n") % (fields, first, probes)
+        got = cm.fresh_interpreter(code)
+        res['claims'] += 1
+        ok = 'error' not in got and got.get('__first__') == want[first] and all(got.get(p) == want[p] for p in probes)
+        if ok:
+            res['discharged'] += 1
+        else:
+            bad = dict({p: (got.get(p), want[p]) for p in probes if got.get(p) != want[p]}, first=(got.get('__first__'), want[first])) if 'error' not in got else got
+            res['violations'].append(dict(case=case.name, claim='first_lookup_through[%s]' % first, values={}, observed=[repr(bad)[:300], 'the table rows'], how='fresh interpreter'))
+    res['queries'] = res['distinct'] = res['claims']
+    res['samples'] = [dict(first_lookups=probes[:6])]
+    return res
+
+
 def cases(tier):
     th = tier == 'thorough'
     out = []
@@ -457,5 +489,6 @@ def cases(tier):
                         timeout_ms=20000, nsamples=2))
     out.append(Case('energy_table_nodes_ground', None, custom=_edep_ground_case))
     out.append(Case('embedded_table_ground_sweep', None, custom=_table_sweep_case))
+    out.append(Case('first_lookup_ground', None, custom=_first_touch_case))
     out.append(Case('notation_crosshair', None, custom=_notation_crosshair, budget_s=700 if th else 230))
     return out
